@@ -437,6 +437,15 @@ def splitLimMark (res : Toks) : Toks × Option Toks :=
   | (a, _ :: m) => (a, some m)
   | (a, []) => (a, none)
 
+/-- `res … EA! <op> <element> <id then> <id now>`: the harness keeps the last slices the library
+    returned alive and reads them again after every later op; this marker says that the answer of
+    op `<op>` no longer reads what it read when it was returned (an answer is a VALUE of the model:
+    a later call cannot change it).  The marker is the last thing of a result. -/
+def splitEAMark (res : Toks) : Toks × Option Toks :=
+  match res.span (· != "EA!") with
+  | (a, _ :: m) => (a, some m)
+  | (a, []) => (a, none)
+
 def halfGrid (f : F) : Bool := let g := f * 2; g.floor == g && g.abs ≤ 64
 
 /-- the one feature of a history that the verdict tag names (rotating, so that every feature is counted) -/
@@ -479,7 +488,12 @@ def handleHist (inp out : Toks) (ptrTag : String := "") : String :=
     -- model run
     let (qm, mres) := ops.foldl (fun (acc : QT F × List String) op =>
       let (q', s) := stepModel acc.1 op; (q', acc.2 ++ [s])) (⟨qb, .nil⟩, [])
-    let parts0 := splitSemi out
+    let partsE := (splitSemi out).map splitEAMark
+    let parts0 := partsE.map (·.1)
+    match (partsE.zipIdx.filterMap fun ((_, m), i) => m.map fun m => (i, m)).head? with
+    | some (i, m) =>
+      s!"propfail earlier-answer-rewritten op#{i} answer-of-op#{m.getD 0 "?"} element {m.getD 1 "?"} held {m.getD 2 "?"} reads {m.getD 3 "?"}"
+    | none =>
     -- the caller's limits array must read after every call what the caller stored in it (the limit is
     -- a VALUE of the model: `Orb.Quadtree.kNearestCall_limits_unchanged`)
     let marks := parts0.map splitLimMark
